@@ -57,7 +57,12 @@ def pick(ctx, n):
     rng = ctx.rng
     idx = [i for i in range(len(mix["inputs"])) if pipeline.is_small(mix["inputs"][i], 40)]
     rng.shuffle(idx)
-    return [mix["inputs"][i] for i in idx[:n]]
+    picked = [mix["inputs"][i] for i in idx[:n]]
+    # rows whose search finds nothing under every condition (they are dropped from the table of retained conditions), a
+    # malformed row and a balanced one, spread over the list: results of the rows after them must not shift
+    for extra in ["N>>CCO", "[Na+].[Cl-]>>CCO", "O>>CCC", "xx>>C", "CC>>CC"]:
+        picked.insert(rng.randint(0, max(0, len(picked) - 2)), extra)
+    return picked
 
 
 def explore(ctx, n, nlayouts, compare=True):
